@@ -806,7 +806,15 @@ INTEGER_encode_uper(const asn_TYPE_descriptor_t *td,
 		ASN__ENCODED_OK(er);
 	}
 
-	for(buf = st->buf, end = st->buf + st->size; buf < end;) {
+	/* X.691 #13.2.4 -> #11.4: 2's-complement-binary-integer in the minimum number of octets */
+	for(buf = st->buf, end = st->buf + st->size; buf + 1 < end; buf++) {
+		if((buf[0] == 0x00 && (buf[1] & 0x80) == 0)
+		|| (buf[0] == 0xff && (buf[1] & 0x80) != 0))
+			continue;
+		break;
+	}
+
+	for(; buf < end;) {
         int need_eom = 0;
         ssize_t mayEncode = uper_put_length(po, end - buf, &need_eom);
         if(mayEncode < 0)
